@@ -270,6 +270,19 @@ def systematic(ks):
                         cfg["badcol"] = (MODES.index(lo) + MODES.index(hi)) % k
                         cfg["badval"] = ["nan", "inf", "-inf"][(MODES.index(lo) + k) % 3]
                     seqs.append(dict(cfg=cfg, ops=ops))
+    # an adaptive update fired in the MIDDLE of a call by the lower side's direct evaluations:
+    # the upper side must still be answered by the table in force when the call was made
+    for k in ks[:2]:
+        for hi in ("CONSTANT", "FUNCTION", "NONE"):
+            for kind, shape, pts in (("arr1", [2], [-1.0, 2.5]), ("arr2", [2, 2], [2.5, -1.0, 0.5, 2.25]),
+                                     ("list", [3], [2.25, -0.5, 2.5])):
+                seqs.append(dict(cfg=dict(k=k, thr=2, n0=20, adapt=True, bad=None), ops=[
+                    dict(op="new", a=0.0, b=2.0, n=17),
+                    dict(op="eval", use=True, kind="scalar", shape=[], pts=[3.0]),
+                    dict(op="modes", lo="NONE", hi=hi),
+                    dict(op="eval", use=True, kind=kind, shape=shape, pts=pts, via="call"),
+                    dict(op="eval", use=True, kind=kind, shape=shape, pts=pts),
+                    dict(op="deriv", order=1, use=True, kind=kind, shape=shape, pts=pts, dxexp=8)]))
     return seqs
 
 
